@@ -211,7 +211,11 @@ impl Resolver<'_> {
     }
 
     fn resolve_ident_wildcard(&mut self, ident: &Ident) -> Result<Ident, String> {
-        let ident_self = ident.clone().pop().unwrap() + Ident::from_name(NS_SELF);
+        // (a bare `*` has no relation part)
+        let Some(relation) = ident.clone().pop() else {
+            return Err("`*` must be qualified by a relation, e.g. `this.*`".to_string());
+        };
+        let ident_self = relation + Ident::from_name(NS_SELF);
         let mut res = self.root_mod.module.lookup(&ident_self);
         if res.contains(&ident_self) {
             res = HashSet::from_iter([ident_self]);
